@@ -471,8 +471,22 @@ async fn crowd_then_late_client(listener: SimListener, max: usize, accept_at_max
     }
     ev!("the crowd of {} connections (limit {}, accept at the limit: {}, held {} ms, idle timeout {} ms) is gone", n, max, accept_at_max, hold_ms, idle_timeout_ms);
     sim::sleep_ms(*sim::pick("crowd.then_ms", &[1u64, 50, 5000])).await;
-    let late = listener.connector(addr(71, 6200), planner);
-    let ask = Ask { k: 900_000, n: 1, s: 20, m: 1, d: 0, e: 0, p: 0, o: 0 };
+    if !late_stream_client(&listener, 71, 900_000).await {
+        sim::violation(
+            P,
+            "liveness",
+            format!("stream-server-serves-nobody-after-the-connection-limit-was-reached/accept-at-max-{}", accept_at_max),
+            format!("{} connections (limit {}) were opened and closed again; a client that came afterwards tried five times, a second apart, and waited 20 s each time: no answer", n, max),
+        );
+    }
+}
+
+/// A well-behaved stream client with one plain request: up to five attempts
+/// (a fresh connection each), a second apart, 20 s for the answer each time.
+async fn late_stream_client(listener: &SimListener, host: u8, k: u32) -> bool {
+    let planner: Arc<dyn Fn(usize) -> ConnectPlan + Send + Sync> = Arc::new(|_| ConnectPlan::default());
+    let late = listener.connector(addr(host, 6200), planner);
+    let ask = Ask { k, n: 1, s: 20, m: 1, d: 0, e: 0, p: 0, o: 0 };
     for attempt in 0..5u16 {
         let id = 0x7100 + attempt;
         let mut mb = MessageBuilder::new_vec();
@@ -498,8 +512,8 @@ async fn crowd_then_late_client(listener: SimListener, max: usize, accept_at_max
                     sim::violation(P, "attribution", "late-client-got-something-else", format!("the client that came after the crowd got {} octets that are not the answer to its request id={:#x}", body.len(), id));
                 }
                 ev!("late client served at attempt {}", attempt + 1);
-                sim::stat("probe.client_served_after_the_crowd_left");
-                return;
+                sim::stat("probe.late_stream_client_served");
+                return true;
             }
             Ok(None) => {
                 ev!("late client: attempt {} turned away", attempt + 1);
@@ -510,12 +524,39 @@ async fn crowd_then_late_client(listener: SimListener, max: usize, accept_at_max
         }
         sim::sleep_ms(1000).await;
     }
-    sim::violation(
-        P,
-        "liveness",
-        format!("stream-server-serves-nobody-after-the-connection-limit-was-reached/accept-at-max-{}", accept_at_max),
-        format!("{} connections (limit {}) were opened and closed again; a client that came afterwards tried five times, a second apart, and waited 20 s each time: no answer", n, max),
-    );
+    false
+}
+
+/// The same over UDP: one plain request with EDNS, up to five transmissions,
+/// 10 s for the answer each time.
+async fn late_udp_client(udp: &UdpNet, server: std::net::SocketAddr, k: u32) -> bool {
+    let sock = udp.bind(addr(73, 6300));
+    let ask = Ask { k, n: 1, s: 20, m: 1, d: 0, e: 0, p: 0, o: 0 };
+    for attempt in 0..5u16 {
+        let id = 0x7300 + attempt;
+        let mut mb = MessageBuilder::new_vec();
+        mb.header_mut().set_id(id);
+        let mut q = mb.question();
+        q.push((Name::<Vec<u8>>::from_chars(format!("{}.svc.", ask.label()).chars()).unwrap(), Rtype::TXT)).unwrap();
+        let mut ad = q.additional();
+        ad.opt(|o| {
+            o.set_udp_payload_size(1232);
+            Ok(())
+        })
+        .unwrap();
+        sock.send_exact(server, ad.into_message().into_octets(), 0);
+        let deadline = tokio::time::Instant::now() + Duration::from_secs(10);
+        while let Ok((d, _)) = tokio::time::timeout_at(deadline, sock.recv_from()).await {
+            sim::sync_clock();
+            if dns::parse(&d).is_some_and(|p| p.id == id && p.qr && p.qname.as_deref().is_some_and(|q| q.starts_with(&ask.label()))) {
+                sim::stat("probe.late_udp_client_served");
+                return true;
+            }
+        }
+        sim::sync_clock();
+        ev!("late udp client: transmission {} unanswered for 10 s", attempt + 1);
+    }
+    false
 }
 
 // ------------------------------------------------------------------ hostile
@@ -1291,6 +1332,24 @@ async fn run(_tier: Tier) {
     if !finished {
         sim::violation(P, "liveness", "clients-never-finished", "clients did not finish within 1200 virtual seconds");
         return;
+    }
+    // Afterwards: everybody has left (hostile senders, aborted and stalled
+    // connections, the crowd), 100 virtual seconds pass - longer than every
+    // idle and write timeout -, and one more well-behaved client per
+    // transport asks one plain question. Whatever went before, the servers
+    // are still there and serve it (no slot, counter or task lost for good).
+    if !sim::stopped() && sim::chance("afterwards", 1, 2) {
+        sim::stat("probe.afterwards_phase");
+        ev!("everybody has left");
+        sim::sleep_ms(100_000).await;
+        if !late_udp_client(&udp, server_addr, 910_000).await {
+            sim::violation(P, "liveness", "datagram-server-serves-nobody-after-the-run".to_string(), "100 s after every client had left, a plain UDP request with EDNS went unanswered five times in a row (10 s each)".to_string());
+            return;
+        }
+        if SHUTDOWN_NS.with(|c| c.get()).is_none() && !late_stream_client(&listener, 74, 920_000).await {
+            sim::violation(P, "liveness", "stream-server-serves-nobody-after-the-run".to_string(), "100 s after every client had left, a plain request over a fresh stream connection went unanswered five times in a row (20 s each)".to_string());
+            return;
+        }
     }
     led.borrow_mut().dgram_limits = dgram_limit_log.lock().unwrap().clone();
     // A response whose send was held up beyond the write timeout may be
